@@ -36,6 +36,21 @@ func distinctS(s []string) {
 }
 
 // fill gives field `shape` of m a symbolic value (collections of 0..max elements; nil and empty both occur).
+// awkward: strings are concrete texts full of characters JSON has to escape (the byte-level encoders are then
+// interpreted on them) instead of symbolic strings.
+var awkward bool
+var awkwardN int
+
+const awkwardText = "\a\v\x01\x1b\x7f\"\\\n\U000e0001<&>"
+
+func vStr() string {
+	if !awkward {
+		return rt.String()
+	}
+	awkwardN++
+	return awkwardText + string(rune('a'+awkwardN))
+}
+
 func fill(m *fix.All, shape, max int) {
 	n := 0
 	if shape >= 12 {
@@ -50,13 +65,13 @@ func fill(m *fix.All, shape, max int) {
 	case 2:
 		m.B = rt.Bool()
 	case 3:
-		m.S = rt.String()
+		m.S = vStr()
 	case 4:
 		m.U = rt.UUID()
 	case 5:
 		m.E = [...]string{"a", "b", "c"}[rt.Choose(3)]
 	case 6:
-		m.One = rt.String()
+		m.One = vStr()
 	case 7:
 		if nilEmpty {
 			v := vInt()
@@ -64,7 +79,7 @@ func fill(m *fix.All, shape, max int) {
 		}
 	case 8:
 		if nilEmpty {
-			v := rt.String()
+			v := vStr()
 			m.OS = &v
 		}
 	case 9:
@@ -99,7 +114,7 @@ func fill(m *fix.All, shape, max int) {
 			m.SS = make([]string, n)
 		}
 		for i := range m.SS {
-			m.SS[i] = rt.String()
+			m.SS[i] = vStr()
 		}
 		distinctS(m.SS)
 	case 14:
@@ -132,7 +147,7 @@ func fill(m *fix.All, shape, max int) {
 			if shape == 20 {
 				keys[i] = rt.UUID()
 			} else {
-				keys[i] = rt.String()
+				keys[i] = vStr()
 			}
 		}
 		distinctS(keys)
@@ -140,7 +155,7 @@ func fill(m *fix.All, shape, max int) {
 			if shape == 19 {
 				mm[k] = rt.UUID()
 			} else {
-				mm[k] = rt.String()
+				mm[k] = vStr()
 			}
 		}
 		switch shape {
@@ -157,7 +172,7 @@ func fill(m *fix.All, shape, max int) {
 		}
 		keys := make([]string, n)
 		for i := range keys {
-			keys[i] = rt.String()
+			keys[i] = vStr()
 		}
 		distinctS(keys)
 		for _, k := range keys {
@@ -177,7 +192,7 @@ func fill(m *fix.All, shape, max int) {
 			}
 		}
 		for _, k := range keys {
-			m.MIS[k] = rt.String()
+			m.MIS[k] = vStr()
 		}
 	case 21:
 		if n > 0 || !nilEmpty {
@@ -185,7 +200,7 @@ func fill(m *fix.All, shape, max int) {
 		}
 		keys := make([]string, n)
 		for i := range keys {
-			keys[i] = rt.String()
+			keys[i] = vStr()
 		}
 		distinctS(keys)
 		for _, k := range keys {
@@ -197,7 +212,7 @@ func fill(m *fix.All, shape, max int) {
 		}
 		keys := make([]string, n)
 		for i := range keys {
-			keys[i] = rt.String()
+			keys[i] = vStr()
 		}
 		distinctS(keys)
 		for _, k := range keys {
@@ -411,6 +426,15 @@ func VerifC09WideInts() {
 	wideInts = true
 	roundTrip([...]int{0, 7, 12, 17, 18}[rt.Choose(5)], 1)
 }
+
+// VerifC09Awkward: the string-bearing shapes with strings of control characters, quotes, non-BMP runes.
+func VerifC09Awkward() {
+	awkward = true
+	// s, one, os, ss, mss, msi, mis, msu, mus, msr, msb
+	shapes := []int{3, 6, 8, 13, 16, 17, 18, 19, 20, 21, 22}
+	roundTrip(shapes[rt.Choose(len(shapes))], 2)
+}
+
 func VerifC09RoundTrip2() { roundTrip(rt.Choose(nShapes), 2) }
 
 // VerifC09Untouched: a row naming one column changes that field only; fields of absent columns keep prior values.
